@@ -568,6 +568,10 @@ func (v *V) builtinLen(e *Env, a Val, isCap bool) Val {
 	case *types.Map:
 		comp, sort := "ML", "(Array Int Int)"
 		t := fmt.Sprintf("(select %s %s)", e.st.heapGet(v.d, comp, sort), a.S)
+		if e.inQuant == 0 && !e.spec {
+			// the length of a map is never negative
+			e.st.define(fmt.Sprintf("(>= %s 0)", t))
+		}
 		if v.d.mode == ModeBV {
 			t = fmt.Sprintf("((_ int2bv 64) %s)", t)
 		}
